@@ -50,4 +50,43 @@ def collectChangedPaths (sc : SameChange) (cm : ContentMerge) (h : History) (c :
   | [p] => if treeOf h c = treeOf h p then [] else changedPathsGeneral sc cm h c
   | _ => changedPathsGeneral sc cm h c
 
+/-! ### the index itself, at the level of its contents
+
+`CompositeChangedPathIndex`: a start position and stacked segments, each holding the path lists of
+consecutive commit positions.  (File format, path interning and segment squashing are not modelled:
+squashing concatenates adjacent segments, which leaves `flatten` unchanged.) -/
+structure CPIndex where
+  start : Nat
+  segments : List (List (List (List Nat)))
+  deriving Repr
+
+/-- `changed_paths(pos)`: `none` for positions outside the indexed range -/
+def CPIndex.lookup (idx : CPIndex) (pos : Nat) : Option (List (List Nat)) :=
+  if pos < idx.start then none else (idx.segments.flatten)[pos - idx.start]?
+
+/-- `add_changed_paths` for the next position (a new one-commit segment) -/
+def CPIndex.add (idx : CPIndex) (paths : List (List Nat)) : CPIndex :=
+  { idx with segments := idx.segments ++ [[paths]] }
+
+/-- squash the two newest segments into one -/
+def CPIndex.squash (idx : CPIndex) : CPIndex :=
+  match idx.segments.reverse with
+  | a :: b :: rest => { idx with segments := (rest.reverse) ++ [b ++ a] }
+  | _ => idx
+
+/-- index the commits `start, start+1, …, n-1` one after the other -/
+def buildIndex (sc : SameChange) (cm : ContentMerge) (h : History) (start : Nat) : CPIndex :=
+  (List.range' start (h.length - start)).foldl (fun idx c => idx.add (collectChangedPaths sc cm h c))
+    { start := start, segments := [] }
+
+/-- `files(prefix)` on one commit: answered from a path list -/
+def matchesPrefix (pre : List Nat) (paths : List (List Nat)) : Bool := paths.any (fun p => pre.isPrefixOf p)
+
+/-- … with the index when the commit is indexed, otherwise by computing the diff -/
+def filesQuery (sc : SameChange) (cm : ContentMerge) (h : History) (idx : Option CPIndex) (pre : List Nat) : List Nat :=
+  (List.range h.length).filter fun c =>
+    match idx.bind (·.lookup c) with
+    | some paths => matchesPrefix pre paths
+    | none => matchesPrefix pre (collectChangedPaths sc cm h c)
+
 end JjModel.TreeDiff
